@@ -9,7 +9,7 @@ case only — no regenerated definition is used):
      reset, nothing after either; no ConnectionPool.NewStream after the response headers)  — theorems `sender_once`, `no_attempt_after_headers`
   2. the clean-up body ran exactly once iff the exchange is done, never twice               — theorem `clean_once`
   3. a finished exchange has a classified outcome (complete reply / reset / client gone / one-way), never silence; an
-     unfinished started exchange is two-way, has delivered no terminal event yet and waits for a live upstream request         — theorem `outcome_total`
+     unfinished started exchange is two-way, has delivered no terminal event yet and waits for a live upstream request         — theorems `outcome_total`, `parked_has_live_upstream`
   4. once the global timeout fired after the start, the exchange is finished — unless the head of a streamed response
      was forwarded (the upstream HAS answered: MOSN's response timeout covers the wait for the response, not the transfer
      of its body; the wait then ends with the body, a reset or the client's departure)     — theorems `timeout_completes`, `outcome_total`
